@@ -221,4 +221,34 @@ def run(prop: str, tier: str, seed: int) -> int:
 
 
 def replay(prop: str, case: dict) -> dict:
-    return {"clause": "replay-by-rerun", "case": case}
+    """Re-run the kernel that raised on the recorded input (bounds checking is on for this property)."""
+    import numpy as _np
+    try:
+        if "plan" in case and "n" in case:
+            inst = tp.make_instance(case["n"], case["rounds"], {})
+            from .c07 import ErrObj
+            from .c08 import LenObj
+            ErrObj(inst).eval(case["plan"])
+            LenObj(inst).eval(case["plan"])
+        elif "M" in case and "x" in case:
+            m = ts.mods()
+            inst = ts.make_instance(case["M"])
+            n = len(case["M"])
+            xa = _np.array(case["x"], dtype=_np.int64)
+            y = int(m["tour_length"](inst, xa))
+            if "i" in case:
+                m["rev_ea"](case["i"], case["j"], n, inst, xa.copy(), y)
+                h = _np.zeros(int(inst.tour_length_upper_bound) + 1, dtype=_np.int64)
+                m["rev_fea"](case["i"], case["j"], n, inst, h, xa.copy(), y)
+        elif "W" in case:
+            inst = bp.make_instance(case["W"], case["H"], case["items"])
+            if "x" in case:
+                dec = bp.Decoders(inst)
+                dec.decode(1, case["x"])
+                dec.decode(2, case["x"])
+            if "rows" in case:
+                from .c02 import Objectives
+                Objectives(inst).evaluate(case["rows"], max(r[1] for r in case["rows"]))
+        return {"clause": "ok", "case": case, "mode": "re-executed"}
+    except IndexError as ex:
+        return {"clause": ["index-error:" + str(ex)[:60]], "case": case, "mode": "re-executed"}
